@@ -220,6 +220,59 @@ def leaves(cfg, env, tag):
     return [e(), e(c0=1), e(c1=1), e(c6=1), e(c0=(1 - c) % p, c6=1), e(c0=s1, c7=p - 1), dense]
 
 
+M61 = (1 << 61) - 1  # CPython's hash modulus for ints: x and x + M61 have equal hashes
+
+
+def eqc_case(curve, grp, i, j, d):
+    """elements that differ by a multiple of 2^61 - 1 in one coefficient: equal int hashes, different
+    values.  ==, != and 'difference is zero' in both families."""
+    cfgs = full_cfgs(curve)
+    out = []
+    for fam in ("ref", "opt"):
+        cfg = cfgs[(fam, grp)]
+        n = 1 if cfg.mc is None else len(cfg.mc)
+        base = [((i * 7 + k * 3) % 5) for k in range(n)]
+        other = list(base)
+        other[j % n] = (other[j % n] + d * M61) % cfg.p
+        xm, ym = (base[0], other[0]) if cfg.mc is None else (tuple(base), tuple(other))
+        x, y = cfg.lib(xm), cfg.lib(ym)
+        for op, exp in (("eq", xm == ym), ("ne", xm != ym)):
+            got = fl.run_op(cfg, op, x, y)
+            if got != ("ok", exp):
+                out.append((fam, op, [xm, ym], ("ok", exp), got))
+        got = fl.run_op(cfg, "eq", x - y, cfg.cls.zero())
+        if got != ("ok", xm == ym):
+            out.append((fam, "x-y==0", [xm, ym], ("ok", xm == ym), got))
+        got = fl.run_op(cfg, "eq", y, cfg.lib(ym))
+        if got != ("ok", True):
+            out.append((fam, "eq-self", [ym], ("ok", True), got))
+    return out
+
+
+def task_eq_collisions(a, env):
+    r = R("full-size:equality-of-hash-colliding-values")
+    for curve in ("bn128", "bls12_381"):
+        for grp in ("E2", "E12", "E1"):
+            for i in range(3):
+                for j in (0, 1, 5, 11):
+                    for d in (1, 2, 1 << 20):
+                        bad = eqc_case(curve, grp, i, j, d)
+                        r.ev += 8
+                        r.transitions += 8
+                        r.dk.add((curve, grp, i, j, d))
+                        for fam, op, args, exp, got in bad[:1]:
+                            r.viol("C14:%s:eq-of-hash-colliding-values:%s" % (grp, fam), ME + ":replay_eqc",
+                                   {"curve": curve, "group": grp, "i": i, "j": j, "d": d}, exp, got, note=op)
+    r.states = 1
+    r.sample({"pairs": "x and x + k*(2^61-1) in one coefficient", "groups": ["FQ", "FQ2", "FQ12"], "ops": ["==", "!=", "x-y == 0"]})
+    return r
+
+
+def replay_eqc(a):
+    bad = eqc_case(a["curve"], a["group"], a["i"], a["j"], a["d"])
+    return None if not bad else {"mismatches": [(f, o, e, g) for f, o, _a, e, g in bad]}
+
+
 def task_bfs(a, env):
     curve, grp, depth = a["curve"], a["group"], a["depth"]
     cfgs = full_cfgs(curve)
@@ -331,7 +384,8 @@ def run(ctx):
         "if every operator-table edge agrees on a finite field, every straight-line program of any "
         "depth agrees there (induction over the program) - DESIGN 6/C14",
         "exception *types* may differ between families; acceptance vs refusal may not",
-        "mixing FQ objects into FQP arithmetic is outside the statement (reference accepts, optimized refuses)",
+        "FQ objects as *operands* of FQP arithmetic are outside the statement (reference accepts, optimized "
+        "refuses); elements *constructed* from same-family FQ coefficients are inside it",
     ]
     tasks = []
     for p in [2, 3, 5, 7, 11, 13]:
@@ -365,6 +419,7 @@ def run(ctx):
                              "square": ctx.quick, "cap": 400}))
         full.append(("bfs", {"curve": curve, "group": "E1", "depth": 2 if ctx.quick else 3,
                              "square": True, "cap": 600 if ctx.quick else 1500}))
+    full.append(("eq_collisions", {}))
     ctx.bounds["bfs"] = "depth 2 (quick) / 3 (thorough FQ, FQ2); FQ12 depth 2 with one leaf operand"
     tasks.sort(key=lambda t: -(len(t[1].get("mc") or []) * 10 + t[1].get("p", 0)))
     ctx.pmap(ME, full + tasks)
